@@ -1,6 +1,44 @@
-(* C10 - UpdateValuesForPath.  Statements only. *)
-From Mxj Require Import Model.TreeOps Proofs.KVTotal.
+(* C10 - UpdateValuesForPath changes only the addressed values and reports how many.
+   Statements only; proofs in Proofs/C10P.v, specification in Spec/UpdateSpec.v. *)
+From Mxj Require Import Model.TreeOps Spec.PathSem Spec.UpdateSpec Proofs.KVTotal Proofs.C10P.
 
 Theorem C10_update_no_panic : forall pf sep m nv path sk, update_values_for_path pf sep m nv path sk <> Panic.
 Proof. exact update_no_panic. Qed.
 Print Assumptions C10_update_no_panic.
+
+(* ---- a count of zero leaves the Map untouched: every Map, path, sub-keys, new value ---- *)
+Theorem C10_update_zero_untouched : forall pf sep m nv path subkeys m',
+  update_values_for_path pf sep m nv path subkeys = Ok (m', 0) -> m' = m.
+Proof. exact update_zero_untouched. Qed.
+Print Assumptions C10_update_zero_untouched.
+
+(* the walker, on key lists *)
+Theorem C10_update_kp_zero : forall key nv sk ks m m',
+  update_kp key nv ks sk m = (m', 0) -> m' = m.
+Proof. exact update_kp_zero. Qed.
+Print Assumptions C10_update_kp_zero.
+
+(* ---- the last path key c applied to a map: exactly the entry targets are written, one count each ---- *)
+Theorem C10_update_value_key_exact : forall key nv sk mm c,
+  VMap (fst (update_value_key key nv mm c sk)) = writes (entry_targets key sk mm c) nv (VMap mm) /\
+  snd (update_value_key key nv mm c sk) = length (entry_targets key sk mm c).
+Proof. exact uvk_exact. Qed.
+Print Assumptions C10_update_value_key_exact.
+
+(* ---- non-vacuity ---- *)
+Local Open Scope string_scope.
+Definition nopf : str -> option flt := fun _ => None.
+Definition ex10 : value :=
+  VMap [(s"doc", VMap [(s"books", VList [
+           VMap [(s"author", VStr (s"A")); (s"title", VStr (s"T1"))];
+           VMap [(s"author", VStr (s"B")); (s"title", VStr (s"T2"))]]);
+         (s"n", VInt 1)])].
+
+Example C10_ex_update :
+  update_values_for_path nopf (s":") ex10 (NVStr (s"title:X")) (s"doc.books") [s"author:B"] =
+    Ok (VMap [(s"doc", VMap [(s"books", VList [
+           VMap [(s"author", VStr (s"A")); (s"title", VStr (s"T1"))];
+           VMap [(s"author", VStr (s"B")); (s"title", VStr (s"X"))]]);
+         (s"n", VInt 1)])], 1) /\
+  update_values_for_path nopf (s":") ex10 (NVStr (s"title:X")) (s"doc.books") [s"author:C"] = Ok (ex10, 0).
+Proof. vm_compute. repeat split. Qed.
